@@ -485,12 +485,12 @@ func genC14(c *Ctx) {
 		ns = []int{1, 2, 3, 4, 5, 6, 7, 8}
 	}
 	for _, set := range c14Sets() {
-		c14CRSDeterminism(c, set)
+		c14Guard(c, "C14-harness-panic", "c14CRSDeterminism", func() { c14CRSDeterminism(c, set) })
 		for i := 0; i < c.Scale(2, 8); i++ {
-			c14CRSTie(c, set)
+			c14Guard(c, "C14-harness-panic", "c14CRSTie", func() { c14CRSTie(c, set) })
 		}
 		for _, n := range ns {
-			c14CPK(c, set, n)
+			c14Guard(c, "C14-harness-panic", "c14CPK", func() { c14CPK(c, set, n) })
 		}
 		cfgs := c14EvkConfigs(set)
 		for ci, cfg := range cfgs {
@@ -499,9 +499,9 @@ func genC14(c *Ctx) {
 				if !c.Thorough() && ns[(ci+len(set.name))%len(ns)] != n {
 					continue
 				}
-				c14EVK(c, set, n, cfg)
-				c14GAL(c, set, n, cfg)
-				c14RKG(c, set, n, cfg)
+				c14Guard(c, "C14-harness-panic", "c14EVK", func() { c14EVK(c, set, n, cfg) })
+				c14Guard(c, "C14-harness-panic", "c14GAL", func() { c14GAL(c, set, n, cfg) })
+				c14Guard(c, "C14-harness-panic", "c14RKG", func() { c14RKG(c, set, n, cfg) })
 			}
 		}
 		// every Galois element of the list (in the conjugate-invariant ring the inverse modulo NthRoot = 4N
@@ -511,9 +511,9 @@ func genC14(c *Ctx) {
 			gcfg = c14Evk{set.maxQ(), -1, 16}
 		}
 		for _, g := range c14AllGalEls(set) {
-			c14GALEl(c, set, 2, gcfg, g)
+			c14Guard(c, "C14-harness-panic", "c14GALEl", func() { c14GALEl(c, set, 2, gcfg, g) })
 		}
-		c14Mismatch(c, set)
+		c14Guard(c, "C14-harness-panic", "c14Mismatch", func() { c14Mismatch(c, set) })
 	}
 }
 
@@ -558,6 +558,29 @@ func c14SurvivesProbe(c *Ctx, label, before, after string) {
 		detail = "key_limbs_changed_when_the_share_and_CRP_objects_were_overwritten"
 	}
 	c.Probe("key_survives_share_reuse", label, "C14-key-aliases-share", detail)
+}
+
+// c14AltCfgs: parameterisations that differ from cfg in exactly one respect (and really produce another level
+// or another number of digits).
+func c14AltCfgs(set c14Set, cfg c14Evk) (names []string, alts []c14Evk) {
+	if cfg.lq > 0 {
+		names, alts = append(names, "levelQ"), append(alts, c14Evk{cfg.lq - 1, cfg.lp, cfg.b2})
+	} else if cfg.lq < set.maxQ() {
+		names, alts = append(names, "levelQ"), append(alts, c14Evk{cfg.lq + 1, cfg.lp, cfg.b2})
+	}
+	if cfg.lp >= 0 {
+		names, alts = append(names, "levelP"), append(alts, c14Evk{cfg.lq, cfg.lp - 1, cfg.b2})
+	} else if set.maxP() >= 0 {
+		names, alts = append(names, "levelP"), append(alts, c14Evk{cfg.lq, 0, cfg.b2})
+	}
+	if cfg.lp <= 0 {
+		b := 8
+		if cfg.b2 == 8 {
+			b = 16
+		}
+		names, alts = append(names, "decomposition"), append(alts, c14Evk{cfg.lq, cfg.lp, b})
+	}
+	return
 }
 
 // c14ProbeTag is appended to the labels of collective_key_works (re-check after share reuse).
@@ -765,6 +788,31 @@ func c14EVK(c *Ctx, set c14Set, n int, cfg c14Evk) {
 
 	c14ProbeEVK(c, set, n, cfg, in, out, evk, res == "panic")
 
+	// refused calls on receivers that hold a valid result: error AND receiver untouched AND key still works
+	if res != "panic" && res != "err" {
+		lab := fmt.Sprintf("set=%s %s N=%d", set.name, cfg, n)
+		names, alts := c14AltCfgs(set, cfg)
+		aggSnap := func() string { return c14GSnap(params, &agg.GadgetCiphertext) }
+		keySnap := func() string { return c14GSnap(params, &evk.GadgetCiphertext) }
+		shSnap := func() string { return c14GSnap(params, &shares[0].GadgetCiphertext) }
+		for k, alt := range alts {
+			bad := protos[0].AllocateShare(alt.params())
+			c14Refused(c, "EvaluationKeyGenProtocol.AggregateShares", names[k]+"_share1", lab, aggSnap, func() error { return protos[0].AggregateShares(bad, shares[0], &agg) })
+			c14Refused(c, "EvaluationKeyGenProtocol.AggregateShares", names[k]+"_share2", lab, aggSnap, func() error { return protos[0].AggregateShares(shares[0], bad, &agg) })
+			c14Refused(c, "EvaluationKeyGenProtocol.GenEvaluationKey", names[k]+"_share", lab, keySnap, func() error { return protos[0].GenEvaluationKey(bad, crp, evk) })
+			if names[k] == "decomposition" {
+				crp2 := protos[0].SampleCRP(crs, alt.params())
+				c14Refused(c, "EvaluationKeyGenProtocol.GenEvaluationKey", "decomposition_crp", lab, keySnap, func() error { return protos[0].GenEvaluationKey(agg, crp2, evk) })
+				c14Refused(c, "EvaluationKeyGenProtocol.GenShare", "decomposition_crp", lab, shSnap, func() error { return protos[0].GenShare(in.sk[0], out.sk[0], crp2, &shares[0]) })
+			}
+		}
+		if len(alts) > 0 {
+			c14ProbeTag = " after_refused_calls"
+			c14ProbeEVK(c, set, n, cfg, in, out, evk, false)
+			c14ProbeTag = ""
+		}
+	}
+
 	if res != "panic" && res != "err" {
 		c14ClobberGadget(c, &agg.GadgetCiphertext)
 		c14ClobberCRP(c, crp.Value)
@@ -815,7 +863,7 @@ func c14GalG(params rlwe.Parameters, s *multiparty.GaloisKeyGenShare) string {
 }
 
 func c14GAL(c *Ctx, set c14Set, n int, cfg c14Evk) {
-	c14GALEl(c, set, n, cfg, c14GalEls(c, set)[0])
+	c14Guard(c, "C14-harness-panic", "c14GALEl", func() { c14GALEl(c, set, n, cfg, c14GalEls(c, set)[0]) })
 }
 
 func c14GALEl(c *Ctx, set c14Set, n int, cfg c14Evk, galEl uint64) {
@@ -919,6 +967,50 @@ func c14GALEl(c *Ctx, set c14Set, n int, cfg c14Evk, galEl uint64) {
 
 	c14ProbeGAL(c, set, n, cfg, keys, galEl, gk, res == "panic")
 
+	// refused calls on receivers that hold a valid result for element A (= galEl): error AND receiver untouched
+	// (polynomials, levels, decomposition, GaloisElement, NthRoot) AND the key still works
+	if res != "panic" && res != "err" {
+		lab := fmt.Sprintf("set=%s %s N=%d galEl=%d", set.name, cfg, n, galEl)
+		other := c14AllGalEls(set)[0]
+		if other == galEl {
+			other = c14AllGalEls(set)[1]
+		}
+		names, alts := c14AltCfgs(set, cfg)
+		aggSnap := func() string { return c14GalG(params, &agg) }
+		shSnap := func() string { return c14GalG(params, &shares[0]) }
+		keySnap := func() string {
+			return U(gk.GaloisElement) + " " + I(int(gk.NthRoot)) + " " + c14GSnap(params, &gk.GadgetCiphertext)
+		}
+		// (a failing call may have re-tagged its receiver: restore the tags so that every case is probed on its own)
+		ref := func(fn, what, lab string, snap func() string, call func() error) {
+			c14Refused(c, fn, what, lab, snap, call)
+			agg.GaloisElement, shares[0].GaloisElement, gk.GaloisElement = galEl, galEl, galEl
+		}
+		// shares for another element B
+		goodB := protos[0].AllocateShare(ep)
+		goodB.GaloisElement = other
+		ref("GaloisKeyGenProtocol.AggregateShares", "galois_element", lab, aggSnap, func() error { return protos[0].AggregateShares(shares[0], goodB, &agg) })
+		for k, alt := range alts {
+			badB := protos[0].AllocateShare(alt.params())
+			badB.GaloisElement = other
+			ref("GaloisKeyGenProtocol.AggregateShares", names[k]+"_other_element", lab, aggSnap, func() error { return protos[0].AggregateShares(goodB, badB, &agg) })
+			ref("GaloisKeyGenProtocol.AggregateShares", names[k]+"_share1", lab, aggSnap, func() error { return protos[0].AggregateShares(badB, goodB, &agg) })
+			ref("GaloisKeyGenProtocol.GenGaloisKey", names[k]+"_share_of_other_element", lab, keySnap, func() error { return protos[0].GenGaloisKey(badB, crp, gk) })
+			if names[k] == "decomposition" {
+				crp2 := protos[0].SampleCRP(crs, alt.params())
+				ref("GaloisKeyGenProtocol.GenGaloisKey", "decomposition_crp", lab, keySnap, func() error {
+					b := agg
+					b.GaloisElement = other
+					return protos[0].GenGaloisKey(b, crp2, gk)
+				})
+				ref("GaloisKeyGenProtocol.GenShare", "decomposition_crp_other_element", lab, shSnap, func() error { return protos[0].GenShare(keys.sk[0], other, crp2, &shares[0]) })
+			}
+		}
+		c14ProbeTag = " after_refused_calls"
+		c14ProbeGAL(c, set, n, cfg, keys, galEl, gk, false)
+		c14ProbeTag = ""
+	}
+
 	if res != "panic" && res != "err" {
 		// the share and CRP objects are reused for the next Galois element
 		c14ClobberGadget(c, &agg.GadgetCiphertext)
@@ -983,7 +1075,8 @@ func c14RKG(c *Ctx, set c14Set, n int, cfg c14Evk) {
 		tern[i].Read(u)
 		us[i] = c14Signed(params.RingQ(), u, false, false)
 		if got := c14Signed(params.RingQ(), eph[i].Value.Q, true, true); IVec(got) != IVec(us[i]) {
-			panic("c14: twin ephemeral secret differs from the protocol's")
+			c.Probe("twin_replay", fmt.Sprintf("rkg ephemeral secret set=%s N=%d party=%d", set.name, n, i), "C14-twin-replay", "twin_ephemeral_secret_differs_from_the_protocol's")
+			us[i] = got
 		}
 		es := c14ReadErrs(set, gauss[i], lq, crpShape, 2)
 		r1Rows[i] = Mat(c14GRows(params, &r1[i].GadgetCiphertext, true, false))
